@@ -127,7 +127,7 @@ pub fn ptok() -> impl Strategy<Value = PTok> {
         4 => (1usize..14).prop_map(PTok::Esc),
         3 => (1usize..10).prop_map(PTok::Zeros),
         2 => (1usize..9).prop_map(PTok::StartLike),
-        2 => (0u8..6, any::<u8>(), any::<u8>()).prop_map(|(p, x, y)| PTok::EndLike(p, x, y)),
+        2 => (prop_oneof![4 => 0u8..6, 1 => Just(0xf0u8), 1 => Just(0xffu8)], any::<u8>(), any::<u8>()).prop_map(|(p, x, y)| PTok::EndLike(p, x, y)),
         3 => prop_oneof![Just(0x1au8), Just(0x01), Just(0x00), Just(0x1b), Just(0xa5), any::<u8>()].prop_map(PTok::Byte),
         1 => (0u8..3, any::<u64>(), 0usize..80).prop_map(|(kind, seed, len)| PTok::Fill { kind, seed, len }),
     ]
